@@ -14,3 +14,6 @@ type WaitGroup = verifrt.WaitGroup
 // runs at a time, and in pass-through mode they are the real thing.
 type Pool = sync.Pool
 type Map = sync.Map
+
+// QuietMutex guards point-free critical sections (see cmd/mkoverlay, singleflight).
+type QuietMutex = verifrt.QuietMutex
